@@ -683,7 +683,7 @@ func isScheduledIssuanceAddress(a factom.FAAddress) bool {
 // before anything is written, after whatever the sync loop does before fetching); (b) the last statement
 // before COMMIT - the sync-height update - fails (everything of the block has been executed, the
 // transaction is rolled back, the same process applies the block again). Heights: (a) every 4th, (b) every
-// other 4th, both at every activation and snapshot height. Whatever the daemon keeps in memory must not
+// other 4th, one of the two at every activation and snapshot height. Whatever the daemon keeps in memory must not
 // make a later attempt differ from a first one. Returns the function that removes the hooks.
 func installRetries(n *harness.Node, r *orch.Result, seed int64, e forge.Eras) func() {
 	special := map[uint32]bool{}
@@ -694,7 +694,12 @@ func installRetries(n *harness.Node, r *orch.Result, seed int64, e forge.Eras) f
 	failedDB := map[uint32]bool{}
 	failedUp := map[uint32]bool{}
 	pick := func(h uint32, k int64) bool {
-		return special[h] || (h >= e.V20 && h%144 == 0) || (int64(h)+seed)%4 == k
+		if special[h] || (h >= e.V20 && h%144 == 0) {
+			// one kind of failure per height (a second failure could repair what the first one broke):
+			// which one is decided by seed and height
+			return (int64(h)/2+seed)%2 == k/2
+		}
+		return (int64(h)+seed)%4 == k
 	}
 	n.Fake.SetFault(func(rq harness.Req) harness.Fault {
 		if rq.Method != "dblock-by-height" || rq.Height != rq.Cur || rq.Height <= e.Pegnet {
